@@ -27,11 +27,20 @@ package keystore
 //@   pure
 //@   requires joseOK(e.Alg, e.KeySize)
 
+// C16: the JWK of an entry names the entry's key id, carries only the public part of its key and its
+// certificates. Calls are recorded in the ghost log jwks.
+//@ spec pubOf(k crypto.Signer) crypto.PublicKey
+//@ iface (crypto.Signer).Public
+//@   pure
+//@   defines pubOf(recv)
+
 //@ func (*Entry).JWK
-//@   props C19
+//@   props C19 C16
 //@   safety nonil
 //@   pure
+//@   logged jwks
 //@   requires joseOK(e.Alg, e.KeySize)
+//@   ensures ret0.KeyID == e.KeyID && ret0.Key == pubOf(e.PrivateKey) && ret0.Certificates == e.CertChain && ret0.Use == "sig"
 
 //@ func (*Entry).CheckSigningSupport
 //@   props C19
@@ -56,3 +65,8 @@ package keystore
 //@   props C19
 //@   safety nonil
 //@   requires len(chain) > 0
+
+// C16: looking up a key only reads the key store
+//@ iface (KeyStore).GetKey
+//@   props C16
+//@   pure
